@@ -308,7 +308,9 @@ theorem involutive_op (o : Op) (hr : reversible o = true) (hc : clean o = true) 
     simp [clean] at hc; subst hc
     cases rev with
     | none => simp [reversible] at hr
-    | some col => exact ⟨_, _, rfl, rfl, by simp [view, dropColumnToColumn]⟩
+    | some col =>
+      simp [reversible] at hr
+      exact ⟨_, _, rfl, rfl, by simp [view, dropColumnToColumn, hr]⟩
   | createIndex ix f =>
     simp [clean] at hc
     obtain ⟨hf, hk⟩ := hc
